@@ -44,3 +44,9 @@ pub mod xtypes;
 
 // To enable using our own derive macros to allow the name dust_dds:: to be used
 extern crate self as dust_dds;
+
+/// Re-exports of crate-internal items for the external verification harnesses.
+/// Only compiled with `--cfg dust_dds_verif`; never part of the public API.
+#[cfg(dust_dds_verif)]
+#[doc(hidden)]
+pub mod verif_hooks;
